@@ -140,8 +140,8 @@ class Run:
         st = p.state
         if st != self.samples[-1]:
             self.samples.append(st)
-        if not p.has_terminated() and p.future().done():
-            self.future_done_while_live = True
+        if not p.has_terminated() and p.future().done() and not p.future().cancelled():
+            self.future_done_while_live = True   # (a future cancelled by its holder is the holder's doing)
         self.paused_log.append((self.tick, len(self.events), p.paused))
         if p.has_terminated() and self.terminal_tick is None:
             self.terminal_tick = self.tick
